@@ -102,4 +102,4 @@ def check(case):
     return PASS(bool(subs) and (multi or stateful), labels)
 
 
-LANES = [Lane(k, (lambda kk: lambda tier: decomposed(kk, tier))(k), check, 1200, 15000, mod_candidates) for k in KINDS]
+LANES = [Lane(k, (lambda kk: lambda tier: decomposed(kk, tier))(k), check, 3000, 30000, mod_candidates) for k in KINDS]
